@@ -55,11 +55,11 @@ Definition jmap_of_list (l : list (str * json)) : jmap :=
   fold_left (fun m kv => jmap_insert (fst kv) (snd kv) m) l [].
 
 (* ---- serde_json::Number / Value predicates ---- *)
-Definition two63 : Z := 9223372036854775808.
-Definition two64 : Z := 18446744073709551616.
-Definition two31 : Z := 2147483648.
+Definition j_two63 : Z := 9223372036854775808.
+Definition j_two64 : Z := 18446744073709551616.
+Definition j_two31 : Z := 2147483648.
 (* const MAX_SAFE_INT: i64 = (1_i64 << 53) - 1 *)
-Definition max_safe_int : Z := 9007199254740991.
+Definition j_max_safe_int : Z := 9007199254740991.
 
 Definition json_is_null (v : json) : bool := match v with JNull => true | _ => false end.
 Definition json_is_string (v : json) : bool := match v with JStr _ => true | _ => false end.
@@ -68,32 +68,32 @@ Definition json_is_f64 (v : json) : bool := match v with JFloat _ => true | _ =>
 (* Number::as_i64: PosInt n if n <= i64::MAX, NegInt n *)
 Definition json_as_i64 (v : json) : option Z :=
   match v with
-  | JInt z => if z <? two63 then Some z else None
+  | JInt z => if z <? j_two63 then Some z else None
   | _ => None
   end.
 Definition json_is_i64 (v : json) : bool :=
   match json_as_i64 v with Some _ => true | None => false end.
 (* i32::try_from(i64).is_ok() *)
-Definition fits_i32 (z : Z) : bool := (- two31 <=? z) && (z <? two31).
+Definition j_fits_i32 (z : Z) : bool := (- j_two31 <=? z) && (z <? j_two31).
 
 (* `as_f64().is_some_and(|f| f.abs() < MAX_SAFE_INT as f64)` on an integer number.
    u64/i64 -> f64 conversion rounds to nearest and is monotone; it is exact up to 2^53 and
    MAX_SAFE_INT = 2^53 - 1 is itself an f64, so  |f64(z)| < 2^53 - 1  <->  |z| < 2^53 - 1. *)
-Definition json_int_as_f64_abs_lt_max_safe (z : Z) : bool := Z.abs z <? max_safe_int.
+Definition json_int_as_f64_abs_lt_max_safe (z : Z) : bool := Z.abs z <? j_max_safe_int.
 
 (* ---- well-formedness: what a serde_json_bytes value can be ---- *)
-Fixpoint str_nodup (l : list str) : bool :=
+Fixpoint j_str_nodup (l : list str) : bool :=
   match l with
   | [] => true
-  | k :: r => negb (existsb (streq k) r) && str_nodup r
+  | k :: r => negb (existsb (streq k) r) && j_str_nodup r
   end.
 
 Fixpoint json_wf (v : json) : bool :=
   match v with
-  | JInt z => (- two63 <=? z) && (z <? two64)
+  | JInt z => (- j_two63 <=? z) && (z <? j_two64)
   | JArr l => (fix go (l : list json) : bool :=
                  match l with [] => true | x :: r => json_wf x && go r end) l
-  | JObj m => str_nodup (List.map fst m) &&
+  | JObj m => j_str_nodup (List.map fst m) &&
               (fix go (l : list (str * json)) : bool :=
                  match l with [] => true | (_, x) :: r => json_wf x && go r end) m
   | _ => true
@@ -110,17 +110,17 @@ Fixpoint json_size (v : json) : nat :=
 
 (* ---- Number::from_str as used by graphql_value_to_json on IntValue / FloatValue text ----
    The text is a GraphQL Int or Float literal: -? digits ( . digits )? ( [eE] [+-]? digits )?  *)
-Definition digit_val (c : N) : Z := Z.of_N c - 48.
+Definition j_digit_val (c : N) : Z := Z.of_N c - 48.
 
-Fixpoint digits_val (acc : Z) (s : str) : Z :=
+Fixpoint j_digits_val (acc : Z) (s : str) : Z :=
   match s with
   | [] => acc
-  | c :: r => digits_val (10 * acc + digit_val c) r
+  | c :: r => j_digits_val (10 * acc + j_digit_val c) r
   end.
 
-Fixpoint take_digits (s : str) : str * str :=
+Fixpoint j_take_digits (s : str) : str * str :=
   match s with
-  | c :: r => if is_digit c then let (d, rest) := take_digits r in (c :: d, rest) else ([], s)
+  | c :: r => if is_digit c then let (d, rest) := j_take_digits r in (c :: d, rest) else ([], s)
   | [] => ([], [])
   end.
 
@@ -131,12 +131,12 @@ Definition json_number_of_int_text (t : str) : option json :=
   match t with
   | c :: r =>
       if (c =? c_minus)%N then
-        let z := digits_val 0 r in
+        let z := j_digits_val 0 r in
         if z =? 0 then Some (JFloat [45; 48; 46; 48]%N)
-        else if z <=? two63 then Some (JInt (- z)) else Some (JFloat t)
+        else if z <=? j_two63 then Some (JInt (- z)) else Some (JFloat t)
       else
-        let z := digits_val 0 t in
-        if z <? two64 then Some (JInt z) else Some (JFloat t)
+        let z := j_digits_val 0 t in
+        if z <? j_two64 then Some (JInt z) else Some (JFloat t)
   | [] => None
   end.
 
@@ -144,31 +144,31 @@ Definition json_number_of_int_text (t : str) : option json :=
    "number out of range" when it does not fit a finite f64.  Round-to-nearest-even sends exactly the
    values >= 2^1024 - 2^970 to infinity.  (serde_json's default float parser is not correctly
    rounded near that boundary; only values far from it are used by the tie.) *)
-Definition f64_overflow_threshold : Z := 2 ^ 1024 - 2 ^ 970.
+Definition j_f64_overflow_threshold : Z := 2 ^ 1024 - 2 ^ 970.
 
-Definition float_text_overflows (t : str) : bool :=
+Definition j_float_text_overflows (t : str) : bool :=
   let t := match t with c :: r => if (c =? c_minus)%N then r else t | [] => t end in
-  let (ip, rest) := take_digits t in
+  let (ip, rest) := j_take_digits t in
   let (fp, rest) := match rest with
-                    | c :: r => if (c =? c_dot)%N then take_digits r else ([], rest)
+                    | c :: r => if (c =? c_dot)%N then j_take_digits r else ([], rest)
                     | [] => ([], [])
                     end in
   let ex : Z := match rest with
                 | c :: r => (* e or E *)
                     match r with
                     | s :: r' =>
-                        if (s =? c_minus)%N then - digits_val 0 r'
-                        else if (s =? c_plus)%N then digits_val 0 r'
-                        else digits_val 0 r
+                        if (s =? c_minus)%N then - j_digits_val 0 r'
+                        else if (s =? c_plus)%N then j_digits_val 0 r'
+                        else j_digits_val 0 r
                     | [] => 0
                     end
                 | [] => 0
                 end in
-  let m := digits_val 0 (ip ++ fp) in
+  let m := j_digits_val 0 (ip ++ fp) in
   let e := ex - Z.of_nat (length fp) in
   if m =? 0 then false
-  else if 0 <=? e then f64_overflow_threshold <=? m * 10 ^ e
-  else f64_overflow_threshold * 10 ^ (- e) <=? m.
+  else if 0 <=? e then j_f64_overflow_threshold <=? m * 10 ^ e
+  else j_f64_overflow_threshold * 10 ^ (- e) <=? m.
 
 Definition json_number_of_float_text (t : str) : option json :=
-  if float_text_overflows t then None else Some (JFloat t).
+  if j_float_text_overflows t then None else Some (JFloat t).
